@@ -237,6 +237,12 @@ def _outcome(stmts):
                 name = e.id
             elif isinstance(e, ast.Attribute):
                 name = e.attr
+            h = _module_function(s, name)
+            if h is not None:
+                built = _only_returns_exception(h)
+                if built is None:
+                    raise AnalysisError("dectable: raise of the result of %s(), which is not a plain exception builder (line %d)" % (name, s.lineno))
+                name = built
             return ("raise", name)
     return None
 
@@ -276,6 +282,11 @@ def branches(func_node, param):
             if oc is not None:
                 out.append((None, oc, s.lineno))
                 return True
+            if isinstance(s, ast.Expr) and isinstance(s.value, ast.Call) and isinstance(s.value.func, ast.Name):
+                # a bare call of an exception BUILDER of the same module does nothing (it does not raise what it builds)
+                h = _module_function(s, s.value.func.id)
+                if h is not None and _only_returns_exception(h) is not None:
+                    continue
             raise AnalysisError("dectable: unsupported statement at line %d: %s" % (s.lineno, type(s).__name__))
         return False
 
@@ -633,8 +644,21 @@ def sym_int_table(func_node, param, resolve=None):
                 if isinstance(e, ast.Call):
                     e = e.func
                 name = e.id if isinstance(e, ast.Name) else (e.attr if isinstance(e, ast.Attribute) else None)
+                # raise <helper>(...) where the helper of the same module only builds and returns the exception
+                h = _module_function(func_node, name)
+                if h is not None:
+                    built = _only_returns_exception(h)
+                    if built is None:
+                        raise AnalysisError("dectable: raise of the result of %s(), which is not a plain exception builder (line %d)" % (name, s.lineno))
+                    name = built
                 rows.append((region, ("raise", name), s.lineno, region))
                 return IntSet.empty()
+            if isinstance(s, ast.Expr) and isinstance(s.value, ast.Call) and isinstance(s.value.func, ast.Name):
+                # a bare call of a helper of the same module that can only build a value (no raise, no effect): the statement
+                # does nothing -- in particular it does NOT raise what the helper returns
+                h = _module_function(func_node, s.value.func.id)
+                if h is not None and _only_returns_exception(h) is not None:
+                    continue
             raise AnalysisError("dectable: unsupported statement at line %d: %s" % (s.lineno, type(s).__name__))
         return region
 
@@ -894,6 +918,7 @@ def normalise_scale_function(func_node, resolve_const, resolve_seq):
     f2.body = prune(f2.body)
     ast.fix_missing_locations(f2)
     _set_parents(f2)
+    f2.parent = getattr(func_node, "parent", None)      # the copy still lives in its module (helpers are looked up there)
     return f2
 
 
@@ -905,4 +930,28 @@ def _literal_truth(e):
             return a is b if (a is None or b is None) else None
         if isinstance(op, ast.IsNot):
             return a is not b if (a is None or b is None) else None
+    return None
+
+
+def _module_function(func_node, name):
+    """the module-level function `name` of the module func_node lives in (None for builtins / imported names)"""
+    if not name:
+        return None
+    m = getattr(func_node, "parent", None)
+    while m is not None and not isinstance(m, ast.Module):
+        m = getattr(m, "parent", None)
+    if m is None:
+        return None
+    for st in m.body:
+        if isinstance(st, ast.FunctionDef) and st.name == name:
+            return st
+    return None
+
+
+def _only_returns_exception(fn):
+    """name of the exception class if the body of fn is (a docstring and) `return <ExceptionClass>(...)` and nothing else"""
+    body = [st for st in fn.body if not (isinstance(st, ast.Expr) and isinstance(st.value, ast.Constant))]
+    if len(body) == 1 and isinstance(body[0], ast.Return) and isinstance(body[0].value, ast.Call) and isinstance(body[0].value.func, ast.Name) \
+            and body[0].value.func.id.endswith(("Error", "Exception")):
+        return body[0].value.func.id
     return None
